@@ -24,6 +24,8 @@ class Node:
         self.edges = []  # (kind, target)  kind in call, secsym, got_data, data_ptr_call, weak, startstop
         self.name = None
         self.cfi = True
+        self.hidden = False     # STV_HIDDEN global (never exported; may be shadowed by a shared lib)
+        self.tls_vis = None     # for kind 'tls': default | hidden | protected
 
     @property
     def marker(self):
@@ -35,6 +37,8 @@ class Node:
             return f".text.{self.name}"
         if self.kind == "data":
             return f".data.{self.name}"
+        if self.kind == "tls":
+            return f".tdata.{self.name}"
         return f"set{self.set}"
 
 
@@ -162,6 +166,37 @@ def generate(rng, size="small"):
         extra = [i for i in cands if i not in g.roots]
         if extra:
             g.undefined_force = [rng.choice(extra)]
+    # Hidden functions: global within the link, never exported. Some of them are also *defined by a
+    # shared library* (libshadow.so) in the dynamic-executable kind, which makes the library's group
+    # send export requests for names that must not be exported.
+    p_hidden = rng.choice([0.0, 0.2, 0.4])
+    for n in g.nodes:
+        if n.kind == "func" and not n.local and not n.comdat and not n.retain \
+                and not n.init_array and n.idx not in g.roots and n.idx not in g.undefined_force \
+                and rng.random() < p_hidden:
+            n.hidden = True
+    hidden = [n.idx for n in g.nodes if n.hidden]
+    g.shadow_defs = rng.sample(hidden, min(len(hidden), rng.randint(0, 6))) if hidden else []
+    exported = [n.idx for n in g.nodes if n.kind == "func" and not n.local and not n.hidden
+                and not n.comdat]
+    g.shadow_refs = rng.sample(exported, min(len(exported), rng.randint(0, 6))) if exported else []
+    # TLS variables with different visibilities, accessed (GD, IE, TLSDESC) from code that is kept
+    # but never executed (freestanding programs have no TLS set up).
+    g.tls = []
+    if rng.random() < 0.5:
+        for _ in range(rng.randint(1, 4)):
+            n = Node(len(g.nodes), rng.randrange(nobj), "tls")
+            n.name = f"t{n.idx}"
+            n.tls_vis = rng.choice(["default", "hidden", "protected"])
+            g.nodes.append(n)
+            by_obj[n.obj].append(n.idx)
+            g.tls.append(n.idx)
+        users = [n for n in g.nodes if n.kind == "func"]
+        for t in g.tls:
+            for u in rng.sample(users, min(len(users), rng.randint(1, 3))):
+                u.edges.append(("tls", (t, rng.choice(["gd", "ie", "desc"]))))
+    g.params.update(p_hidden=p_hidden, shadow_defs=len(g.shadow_defs), shadow_refs=len(g.shadow_refs),
+                    tls=len(g.tls))
     g.by_obj = by_obj
     # crtend-style object: its .eh_frame is just a 4-byte zero terminator. Placed anywhere on the
     # command line (after object `term_after`), so FDE-bearing objects may follow it.
@@ -242,6 +277,8 @@ def _emit_func(g, n, out, as_comdat_copy=False):
             out.append(f"\t.weak {name}")
         else:
             out.append(f"\t.globl {name}")
+        if n.hidden:
+            out.append(f"\t.hidden {name}")
     out.append(f"\t.type {name},@function")
     out.append(f"{name}:")
     out.append("\t.cfi_startproc")
@@ -277,6 +314,10 @@ def _emit_func(g, n, out, as_comdat_copy=False):
             out.append(f"\tjz {100 + lbl}f")
             out.append("\tcall *%rax")
             out.append(f"{100 + lbl}:")
+        elif k == "tls":
+            # keep (but never execute) a helper that accesses a TLS variable
+            if not n.comdat:
+                out.append(f"\tleaq tl_{n.idx}_{lbl}(%rip), %rax")
         elif k == "startstop":
             out.append(f"\tleaq __start_set{t}(%rip), %rsi")
             out.append(f"\tleaq __stop_set{t}(%rip), %rdi")
@@ -292,6 +333,31 @@ def _emit_func(g, n, out, as_comdat_copy=False):
     out.append("\tret")
     out.append("\t.cfi_endproc")
     out.append(f"\t.size {name}, .-{name}")
+    if not as_comdat_copy and not n.comdat:
+        lbl2 = 0
+        for (k, t) in n.edges:
+            lbl2 += 1
+            if k != "tls":
+                continue
+            (ti, model) = t
+            tn = g.nodes[ti].name
+            out.append(f'\t.section .text.tl_{n.idx}_{lbl2},"ax",@progbits')
+            out.append(f"\t.type tl_{n.idx}_{lbl2},@function")
+            out.append(f"tl_{n.idx}_{lbl2}:")
+            if model == "gd":
+                out.append("\t.byte 0x66")
+                out.append(f"\tleaq {tn}@tlsgd(%rip), %rdi")
+                out.append("\t.value 0x6666")
+                out.append("\trex64")
+                out.append("\tcall __tls_get_addr@PLT")
+            elif model == "ie":
+                out.append(f"\tmovq {tn}@gottpoff(%rip), %rax")
+                out.append("\tmovq %fs:(%rax), %rax")
+            else:
+                out.append(f"\tleaq {tn}@tlsdesc(%rip), %rax")
+                out.append(f"\tcall *{tn}@tlscall(%rax)")
+            out.append("\tret")
+            out.append(f"\t.size tl_{n.idx}_{lbl2}, .-tl_{n.idx}_{lbl2}")
     if n.init_array:
         out.append('\t.section .init_array,"aw",@init_array')
         out.append("\t.p2align 3")
@@ -309,6 +375,18 @@ def _emit_data(g, n, out):
         if k == "ptr":
             out.append(f"\t.quad {g.nodes[t].name}")
     out.append(f"\t.size {n.name}, .-{n.name}")
+
+
+def _emit_tls(g, n, out):
+    out.append(f'\t.section .tdata.{n.name},"awT",@progbits')
+    out.append("\t.p2align 3")
+    out.append(f"\t.globl {n.name}")
+    if n.tls_vis in ("hidden", "protected"):
+        out.append(f"\t.{n.tls_vis} {n.name}")
+    out.append(f"\t.type {n.name},@object")
+    out.append(f"{n.name}:")
+    out.append(f"\t.quad 0x{n.marker:x}")
+    out.append(f"\t.size {n.name}, 8")
 
 
 def _emit_setmember(g, n, out):
@@ -332,6 +410,8 @@ def emit(g, workdir):
                 _emit_func(g, n, out)
             elif n.kind == "data":
                 _emit_data(g, n, out)
+            elif n.kind == "tls":
+                _emit_tls(g, n, out)
             else:
                 _emit_setmember(g, n, out)
         for i in dup_by_obj.get(o, []):
@@ -372,6 +452,14 @@ def emit(g, workdir):
     out.append("\tsyscall")
     out.append("\t.cfi_endproc")
     out.append("\t.size _start, .-_start")
+    if getattr(g, "tls", None):
+        out.append('\t.section .text.__tls_get_addr,"ax",@progbits')
+        out.append("\t.globl __tls_get_addr")
+        out.append("\t.type __tls_get_addr,@function")
+        out.append("__tls_get_addr:")
+        out.append("\txorl %eax, %eax")
+        out.append("\tret")
+        out.append("\t.size __tls_get_addr, .-__tls_get_addr")
     out.append('\t.section .bss.rt,"aw",@nobits')
     out.append("\t.p2align 3")
     out.append("\t.globl checksum")
@@ -386,6 +474,27 @@ def emit(g, workdir):
         f.write("\n".join(out) + "\n")
     obj = os.path.join(workdir, "rt.o")
     assemble(src, obj)
+    # libshadow.so: defines names that objects define as hidden, and references exported names
+    lib = ['\t.text']
+    for i in getattr(g, "shadow_defs", []):
+        nm = g.nodes[i].name
+        lib += [f"\t.globl {nm}", f"\t.type {nm},@function", f"{nm}:", "\tret",
+                f"\t.size {nm}, .-{nm}"]
+    lib += ["\t.globl shadow_user", "\t.type shadow_user,@function", "shadow_user:"]
+    for i in getattr(g, "shadow_refs", []):
+        lib.append(f"\tcall {g.nodes[i].name}@PLT")
+    lib += ["\tret", "\t.size shadow_user, .-shadow_user",
+            '\t.section .note.GNU-stack,"",@progbits']
+    lsrc = os.path.join(workdir, "libshadow.s")
+    with open(lsrc, "w") as f:
+        f.write("\n".join(lib) + "\n")
+    lobj = os.path.join(workdir, "libshadow.o")
+    assemble(lsrc, lobj)
+    from .common import run_cmd, HarnessError
+    rc, o, e = run_cmd(["ld.bfd", "-shared", "-o", os.path.join(workdir, "libshadow.so"), lobj,
+                        "-soname=libshadow.so"])
+    if rc != 0:
+        raise HarnessError(f"ld.bfd -shared (libshadow) failed: {e.decode(errors='replace')[:300]}")
     return [obj] + paths
 
 
@@ -397,6 +506,8 @@ def link_args(g, objs, out, kind="exe", gc=True):
         args += ["-pie", "--no-dynamic-linker"]
     elif kind == "shared":
         args += ["-shared"]
+    elif kind == "dynexe":
+        args += ["--dynamic-linker=/lib64/ld-linux-x86-64.so.2"]
     if gc:
         args.append("--gc-sections")
     else:
@@ -404,4 +515,6 @@ def link_args(g, objs, out, kind="exe", gc=True):
     for i in g.undefined_force:
         args.append(f"--undefined={g.nodes[i].name}")
     args += objs
+    if kind == "dynexe":
+        args.append(os.path.join(os.path.dirname(objs[0]), "libshadow.so"))
     return args
